@@ -44,6 +44,7 @@ VmExplains(m, run) ==
 Symptom(ref, run) == IF ~NothingAfterEnd(run) THEN "ran-after-end"
                      ELSE IF ~SameOutcome(ref, run) THEN "outcome"
                      ELSE IF ~SameOutput(ref, run) THEN "output" ELSE "chain"
+HasNativeDefer(prog) == \E f \in 1..Len(prog) : \E i \in 1..Len(prog[f]) : prog[f][i].op \in {"dprint", "dpanic", "dstop", "dfatal"}
 Cause(prog, ref, run, m) ==
   IF FlowOK(ref, run)
   THEN (IF \A i \in 1..Len(ref.chain) : LinkPosOK(prog, run, ref.chain[i], run.chain[i]) \/ (run.chain[i].path = "" /\ run.chain[i].line = 0)
@@ -52,6 +53,9 @@ Cause(prog, ref, run, m) ==
   \* function into a fatalError whose message is the panic TEXT: the host recovers a string
   ELSE IF run.variant = "callback" /\ run.outcome = "hostpanic" /\ run.dclass = "string" THEN "callback-panic-escapes"
   ELSE IF VmExplains(m, run) /\ m.why # "" THEN m.why
+  \* the same native-deferred-call paths of nextCall inside the nested VM that runs a called-back function (the transcribed
+  \* machine models the main VM only: there callNative crashes first, in a nested VM `case deferred` does)
+  ELSE IF run.variant = "callback" /\ run.outcome = "hostpanic" /\ HasNativeDefer(prog) THEN "native-defer-while-panicking"
   ELSE Symptom(ref, run)
 \* (a position-only failure is "explained" by the transcribed newPanic exactly when no position at all is reported; the VM
 \* machine is not run for it)
